@@ -66,8 +66,9 @@ def run(ctx):
                "trusted: TLC, the projection (GetExistingAccount / GetAccumulatedFees) in harness/cmd/vh-movebalance")
     full = dict(values="0, 1, 4, 41", prices="0, 1, 2", gaslimits="1, 2, 3, 5, 7, 8", datalens="0, 1")
     # ---- R1: exhaustive to a bounded number of transactions (BFS + VIEW: hist is the shortest history)
+    trim = dict(gaslimits="1, 2, 3, 7, 8", values="0, 4, 41") if q else {}
     open(os.path.join(sd, "r1.cfg"), "w").write(CFG % dict(
-        full, spec="GenSpec", log="LogAppend", depth=4 if q else 5, scen="quick" if q else "thorough", rest=PROPS_R1))
+        full, spec="GenSpec", log="LogAppend", depth=4, scen="quick" if q else "thorough", rest=PROPS_R1, **trim))
     dev = bool(os.environ.get("VERIF_DEV_SKIP_R1"))     # mutation-testing aid only: skips the code-independent R1 runs
     r1 = vlib.TlcResult() if dev else ctx.tlc(sd, "MC_MoveBalance", "r1.cfg", timeout=2400, coverage=not q)
     if not q and r1.ok and r1.coverage_zero:
@@ -75,9 +76,8 @@ def run(ctx):
     exe = ctx.go_build("vh-movebalance")
     # ---- R2a: transition cover
     open(os.path.join(sd, "gen.cfg"), "w").write(CFG % dict(
-        full, spec="GenSpec", log="LogAppend", depth=3 if q else 4, scen="quick" if q else "thorough",
-        gaslimits="1, 2, 3, 7, 8" if q else full["gaslimits"], values="0, 4, 41" if q else full["values"],
-        rest="VIEW cvars\nACTION_CONSTRAINT EmitEdge"))
+        full, spec="GenSpec", log="LogAppend", depth=3, scen="quick" if q else "thorough",
+        rest="VIEW cvars\nACTION_CONSTRAINT EmitEdge", **trim))
     beh = ctx.path("edges.ndjson")
     g = ctx.tlc(sd, "MC_MoveBalance", "gen.cfg", timeout=2400, behaviours_out=beh, count=False)
     if g.ok and g.behaviours == 0:
@@ -90,7 +90,7 @@ def run(ctx):
     open(os.path.join(sd, "sim.cfg"), "w").write(CFG % dict(
         full, spec="GenSpec", log="LogAppend", depth=14, scen="thorough", rest="ACTION_CONSTRAINT EmitFull"))
     beh2 = ctx.path("sim.ndjson")
-    ctx.tlc(sd, "MC_MoveBalance", "sim.cfg", simulate=25 if q else 300, depth=14, timeout=900, behaviours_out=beh2,
+    ctx.tlc(sd, "MC_MoveBalance", "sim.cfg", simulate=40 if q else 400, depth=14, timeout=900, behaviours_out=beh2,
             count=False)
     r2 = ctx.vh(exe, ["replay", beh2], timeout=1200, count_samples=False)
     ctx.cov(traces_validated_against_impl=int(r2.stats.get("behaviours", 0)), evaluations=int(r2.stats.get("steps", 0)))
